@@ -90,7 +90,7 @@ class Encoder:
         for i in range(1, n + 1):
             c = allc.get(i)
             if c is None or "idle" not in c:
-                cs.append({"st": "weird", "mux": False, "cnt": 0, "idle": False, "av": False, "ex": False, "cl": False, "org": ""})
+                cs.append({"st": "weird", "mux": False, "cnt": 0, "idle": False, "av": False, "ex": False, "cl": False, "org": "", "xc": True})
                 continue
             h = c["handles"]
             cs.append(
@@ -103,6 +103,7 @@ class Encoder:
                     "ex": c["expired"],
                     "cl": c["closed"],
                     "org": self.origin_name(h[0]) if len(h) == 1 else ("" if not h else "multi"),
+                    "xc": bool(c.get("xc", True)),
                 }
             )
         so = sorted({s["owner"] for s in o["streams"] if s["open"]})
@@ -133,6 +134,9 @@ class Encoder:
         got = set()
         route = {}
         nsent = {}
+        rsent = {}
+        tokok = {}
+        bodyok = {}
         bend = {}
         closing_pool = False
         for e in self.run.events:
@@ -141,12 +145,15 @@ class Encoder:
                 last = self.obs(e["obs"])
             elif k == "Return":
                 marks[e["r"]] = self.ret(e)
+                rsent[e["r"]] = e.get("nsent", 0)
             elif k == "Got":
                 got.add(e["r"])
                 route[e["r"]] = e.get("route", "ok")
+                tokok[e["r"]] = e.get("tok", "") == self.run.calls[e["r"]].tok
                 nsent[e["r"]] = len(e.get("sent_on", []))
             elif k == "BodyEnd":
                 bend[e["r"]] = "full" if e.get("complete") else "partial"
+                bodyok[e["r"]] = bool(e.get("bodyok", True))
             elif k == "Fault":
                 if e["r"] in self.rid:
                     evs.append({"e": "Fault", "r": self.rid[e["r"]], "obs": last})
@@ -172,7 +179,7 @@ class Encoder:
             elif k == "Step":
                 last = self.obs(e["obs"])
                 t = e["task"]
-                evs.append({"e": "Q", "r": self.rid.get(t, 0), "ret": marks.pop(t, ""), "got": t in got, "bend": bend.pop(t, ""), "route": route.pop(t, ""), "nsent": nsent.pop(t, 0), "obs": last})
+                evs.append({"e": "Q", "r": self.rid.get(t, 0), "ret": marks.pop(t, ""), "got": t in got, "bend": bend.pop(t, ""), "route": route.pop(t, ""), "nsent": nsent.pop(t, 0), "rsent": rsent.pop(t, 0), "tokok": tokok.pop(t, True), "bodyok": bodyok.pop(t, True), "obs": last})
                 got.discard(t)
             elif k == "End":
                 last = self.obs(e["obs"])
